@@ -701,7 +701,7 @@ class Wild(Family):
     </xs:sequence><xs:anyAttribute processContents="lax"/></xs:complexType></xs:element>
     <xs:element name="strict" minOccurs="0"><xs:complexType><xs:sequence>
       <xs:any namespace="##targetNamespace" processContents="strict" minOccurs="0" maxOccurs="unbounded"/>
-    </xs:sequence></xs:complexType></xs:element>
+    </xs:sequence><xs:anyAttribute namespace="##targetNamespace" processContents="strict"/></xs:complexType></xs:element>
     <xs:element name="skip" minOccurs="0"><xs:complexType><xs:sequence>
       <xs:any namespace="##other" processContents="skip" minOccurs="0" maxOccurs="unbounded"/>
     </xs:sequence></xs:complexType></xs:element>
@@ -745,6 +745,9 @@ class Wild(Family):
             Doc('wd-lax-unknown-xsitype-nil', D('<unq xmlns:xsi="http://www.w3.org/2001/XMLSchema-instance" '
                                                 'xmlns:xs="http://www.w3.org/2001/XMLSchema" xsi:type="xs:int" xsi:nil="true"/>'),
                 prefix_dep=True),
+            Doc('wd-strictattr-declared', D('', '<w:known>1</w:known>').replace('<w:strict>', '<w:strict w:ga="3">')),
+            Doc('wd-strictattr-undeclared', D('', '').replace('<w:strict>', '<w:strict w:nope="1">'), 'fault:wildcard'),
+            Doc('wd-strictattr-badvalue', D('', '').replace('<w:strict>', '<w:strict w:ga="x">'), 'fault:lexical'),
             Doc('wd-lax-unknown-plain', D('<unq>text</unq><unq2 a="1"/>')),
             Doc('wd-tail-nested', D('<o:x><o:y><o:z/></o:y></o:x>', tail=' <o:t1><o:d1><o:d2>t</o:d2></o:d1></o:t1>\n <o:t2/>\n')),
         ]
@@ -960,6 +963,11 @@ class Recur(Family):
             return (_decl() + '<n/>').encode()
         # side leaves live in elements of level <= depth-1, so they sit at level <= depth
         return (_decl() + '<n>' * (depth - 1) + '<n/>' + (side + '</n>') * (depth - 1)).encode()
+
+    @staticmethod
+    def nsflat(count):
+        """depth 3, `count` parents whose last child declares a namespace prefix."""
+        return (_decl() + '<n>' + '<n><n v="1"/><n xmlns:p="urn:x" xmlns:q="urn:y"/></n>' * count + '</n>').encode()
 
     @staticmethod
     def decorate(data, rng, n):
